@@ -268,6 +268,8 @@ ObsStep ==
                     /\ queue' = queue /\ spawn' = spawn /\ lastOut' = <<>>
             noop == (IF ObsRejectedIsNoop THEN {}
                      ELSE { V("C05_RejectedIsNoop", r.pid, KeyOrNo(r), {}) })
+                    \cup (IF C05_LiveProcessStep THEN {}
+                          ELSE { V("C05_LiveProcess", r.pid, KeyOrNo(r), {}) })
                     \cup (IF C19_TickKeepsStatesStep THEN {}
                           ELSE { V("C19_TickKeepsStates", "p1", NoKey, {}) })
                     \cup (IF C15_ReturnMatchesStep THEN {}
